@@ -219,6 +219,9 @@ func genC07RecvFiles(c *ctx) {
 			forceName = pool[ci%3]
 			if ci >= nser/2 {
 				seriesGap = []int{0, 1, 9, 10, 99, 100, 998, 999, c.rng.Intn(1000)}[c.rng.Intn(9)]
+				if ci == nser/2 {
+					seriesGap = 999
+				}
 				c.count("pre:series-with-one-gap")
 			} else {
 				c.count("pre:full-series")
@@ -500,7 +503,7 @@ func genC07NamesE2E(c *ctx) {
 	work, _ := os.MkdirTemp("", "c07names_e2e_")
 	defer os.RemoveAll(work)
 	nreg := c.pick(24, 240)
-	n := nreg + c.pick(12, 48)
+	n := nreg + c.pick(8, 48)
 	protos := []int{0, 2, 3, 4}
 	cases := make([]*c07eCase, n)
 	for i := range cases {
@@ -513,7 +516,7 @@ func genC07NamesE2E(c *ctx) {
 			j := i - nreg
 			ec.cfg.overwrite, ec.twice, ec.cfg.directory = false, false, j%3 != 2
 			ec.series = -1
-			if j%12 >= 8 {
+			if j%8 >= 6 {
 				ec.series = []int{0, 9, 10, 100, 998, 999}[c.rng.Intn(6)]
 			}
 		}
